@@ -38,7 +38,7 @@ fn bad_entry(rng: &mut Rng) -> Bad {
     let note = rng.chance(1, 3);
     let n = if note { "    ; a note before the postings\n" } else { "" };
     let k = if note { 1 } else { 0 };
-    let pick = rng.below(15);
+    let pick = rng.below(18);
     let (kind, syntactic, text, stop): (&'static str, bool, String, usize) = match pick {
         0 => ("unbalanced", false, format!("2024/02/01 BADQ\n{}    Bad:A    1 USD\n    Bad:B    2 USD\n", n), 0),
         1 => ("assertion-false", false, format!("2024/02/01 BADQ\n{}    Bad:A    1 USD = 5 USD\n    Bad:B\n", n), 0),
@@ -54,6 +54,18 @@ fn bad_entry(rng: &mut Rng) -> Bad {
         11 => ("garbage-line", true, "garbage here, not an entry\n".to_string(), 0),
         12 => ("orphan-posting", true, "    Bad:B    2 USD\n".to_string(), 0),
         13 => ("bad-second-posting", true, format!("2024/02/01 BADQ\n{}    Bad:A    1 USD\n    Bad:B    2 USD @\n", n), 2 + k),
+        15 => ("short-garbage-line", true, "xyz\n".to_string(), 0),
+        16 => {
+            // a long entry whose last posting is malformed close to its line end
+            let extra = 4 + rng.usize(4);
+            let mut t = format!("2024/02/01 BADQ\n{}", n);
+            for j in 0..extra {
+                t.push_str(&format!("    Bad:P{}    {} USD\n", j, j + 1));
+            }
+            t.push_str("    Bad:Last    (2 USD\n");
+            ("long-entry-bad-last-posting", true, t, 1 + k + extra)
+        }
+        17 => ("unclosed-paren-short", true, format!("2024/02/01 BADQ\n{}    B    (1\n    Bad:B\n", n), 1 + k),
         _ => ("orphan-note-wide", true, "    ; メモ orphan note after a blank line\n".to_string(), 0),
     };
     Bad { kind, syntactic, text, stop }
@@ -81,7 +93,7 @@ impl FileBuild {
         let k = rng.usize(max + 1);
         for _ in 0..k {
             self.push(rng.pick_str(VALID));
-            let b = 1 + rng.usize(3);
+            let b = if rng.chance(1, 6) { 4 + rng.usize(5) } else { 1 + rng.usize(3) };
             self.blank(b);
         }
     }
@@ -244,10 +256,10 @@ impl Check for C14 {
     fn rule(&self) -> String {
         "Each case: a tree of 1-3 files (root, file included by the root, file included by that one; the deepest name has a space and a non-ASCII letter). Every \
          file starts with 0-2 blank lines and 0-4 valid entries from a pool (transactions, multi-line and multi-byte comments, account / commodity declarations, \
-         metadata, apply tag, an include of a zero-byte file), separated by 1-3 blank lines, each file independently LF or CRLF; the deepest file then holds exactly one invalid entry followed by \
+         metadata, apply tag, an include of a zero-byte file), separated by 1-3 (one in six: 4-8) blank lines, each file independently LF or CRLF; the deepest file then holds exactly one invalid entry followed by \
          0-2 valid ones; the including files hold the include line followed by more valid content. Invalid entry: semantic (unbalanced in 1 or 3 commodities, false \
          assertion, two unconstrained postings, zero rate, cost in the amount's commodity, alias conflicting with a used account) or syntactic (impossible date, \
-         `1,23`, unclosed `(`, unclosed `{`, dangling `@`, garbage line, orphan posting / orphan multi-byte note after a blank line), optionally with a note line \
+         `1,23`, unclosed `(`, unclosed `{`, dangling `@`, garbage line (long and 3 bytes short), malformed last posting of a 6-10 line entry, orphan posting / orphan multi-byte note after a blank line), optionally with a note line \
          before the postings. Ground truth: the file, the entry's first and last line, and for syntax errors the line where parsing must stop. Oracle on the rendered \
          error chain (Display of the error and its sources; CLI stderr with ANSI stripped): the ledger is rejected; every file named as location (`--> f:l:c`, \
          `failed to parse file f`) is the file holding the entry; at least one line number is shown; every gutter number and the `-->` line lie in [first, last] \
